@@ -174,8 +174,8 @@ func (s ValShape) Clamp() ValShape {
 		}
 		return v
 	}
-	s.Parts = cl(s.Parts, 2, 64)
-	s.Assets = cl(s.Assets, 1, 64)
+	s.Parts = cl(s.Parts, 2, 1024)
+	s.Assets = cl(s.Assets, 1, 1024)
 	s.Locked = cl(s.Locked, 0, 16)
 	s.App = cl(s.App, AppNone, AppBlob)
 	s.Flags &= 31
@@ -301,7 +301,17 @@ func RandAllocation(r *kernel.Rand, s ValShape) channel.Allocation {
 		}
 	}
 	if s.Big {
-		big := func() *big.Int { return new(big.Int).SetBytes(r.Bytes(r.Range(1, 127))) }
+		big := func() *big.Int {
+			n := r.Range(1, 128)
+			if r.Bool(0.15) {
+				n = 128 // exactly the documented limit
+			}
+			b := r.Bytes(n)
+			if n == 128 && b[0] == 0 {
+				b[0] = 0x80
+			}
+			return new(big.Int).SetBytes(b)
+		}
 		for i := range a.Balances {
 			for j := range a.Balances[i] {
 				if r.Bool(0.6) {
